@@ -66,7 +66,9 @@ fn inherent_base(receiver_ty: &tast::Ty) -> String {
         | tast::Ty::TStruct { .. }
         | tast::Ty::TApp { .. }
         | tast::Ty::TVec { .. }
-        | tast::Ty::TRef { .. } => receiver_ty.get_constr_name_unsafe(),
+        | tast::Ty::TRef { .. } => receiver_ty
+            .constr_name()
+            .unwrap_or_else(|| ty_compact(receiver_ty)),
         other => ty_compact(other),
     }
 }
